@@ -120,8 +120,8 @@ type runner struct {
 	raceBarrier  chan struct{}
 	raceExpected int
 	raceArrived  int
-	rng       *rand.Rand
-	nres      int
+	rng          *rand.Rand
+	nres         int
 }
 
 var gatedEvents = map[string]bool{
@@ -1088,11 +1088,27 @@ func TestScenarios(t *testing.T) {
 	}
 	defer fh.Close()
 	out := bufio.NewWriter(fh)
+	// A goroutine blocked on a sync.Mutex is not "durably blocked" for synctest: a mutex deadlock inside the
+	// processor makes synctest.Wait hang instead of returning.  A real-time watchdog (outside the bubble) ends the
+	// process; the orchestrator re-runs the scenario alone before it believes the hang.
+	wd, _ := strconv.Atoi(os.Getenv("VERIF_WATCHDOG_S"))
+	if wd <= 0 {
+		wd = 45
+	}
 	for i := start; i < len(scs); i++ {
 		sc := &scs[i]
+		idx := i
+		timer := time.AfterFunc(time.Duration(wd)*time.Second, func() {
+			fmt.Fprintf(os.Stderr, "\nVERIF-HANG scenario=%d id=%s\n", idx+1, scs[idx].ID)
+			buf := make([]byte, 1<<16)
+			n := runtime.Stack(buf, true)
+			os.Stderr.Write(buf[:n])
+			os.Exit(3)
+		})
 		synctest.Test(t, func(t *testing.T) {
 			runScenario(t, sc, i+1, out)
 		})
+		timer.Stop()
 		out.Flush()
 	}
 }
